@@ -349,7 +349,7 @@ func TestC15_GateState(t *testing.T) {
 			return
 		}
 	}
-	ev.Rapid("gatestate", ev.Pick(6, 25))
+	ev.Rapid("gatestate", ev.Pick(6, 15))
 	rapid.Check(t, func(rt *rapid.T) {
 		plan := drawGatePlan(rt)
 		key, what, err := runGatePlan(c, &plan)
